@@ -85,6 +85,10 @@ theorem vinv_rootGet {s : St} (h : VInv s) : VInv (rootGetNode s) := by
   obtain ⟨a, b, c, d, e, f, g, i, j⟩ := h
   exact ⟨a, b, c, d, e, f, g, i, j⟩
 
+theorem vinv_list {s : St} (h : VInv s) : VInv (listRoot s) := by
+  obtain ⟨a, b, c, d, e, f, g, i, j⟩ := h
+  exact ⟨a, b, c, d, e, f, g, i, j⟩
+
 theorem vinv_write {s : St} {w v : Nat} {fd : Fd} (h : VInv s) (hfd : (s.ws w).fd = some fd) (hw : fd.write = true)
     (hst : (s.ws w).stage = none) : VInv (writeFd s w v) := by
   simp only [writeFd, hfd, setWorker]
@@ -548,6 +552,7 @@ theorem vinv_step {s s' : St} (h : VInv s) (hs : Step s s') : VInv s' := by
   | begin w closing fd h1 h2 => exact vinv_begin h h1 h2
   | micro _ _ hm => exact vinv_micro h hm
   | rootGet => exact vinv_rootGet h
+  | list => exact vinv_list h
   | chmod f m _ => exact vinv_chmod h
 
 theorem vinv_reach {sub : Nat → Bool} {s : St} (h : Reach sub s) : VInv s := by
